@@ -22,13 +22,14 @@ class Clause:
 
 
 class RaisesClause:
-    def __init__(self, cls, when=None, ensures=(), label=None, tags=(), origin=None, caller_only=False):
+    def __init__(self, cls, when=None, ensures=(), label=None, tags=(), origin=None, caller_only=False, delivered=True):
         self.cls = cls                    # class name, or tuple of names
         self.when = when                  # expr over the pre-state (old values), or None
         self.ensures = [Clause.of(e) for e in ensures]
         self.label = label or (cls if isinstance(cls, str) else '|'.join(cls))
         self.tags = tuple(tags) if not isinstance(tags, str) else (tags,)
         self.origin = origin
+        self.delivered = delivered     # for CancelledError clauses: False = raised by user code itself, the task was not cancelled
         self.caller_only = caller_only   # over-approximation offered to callers; not accepted when verifying the body
 
 
